@@ -203,5 +203,31 @@ def run(ctx):
 
 
 def replay(ctx, rep):
-    print("replay: re-run with the recorded seed; case summary:", {k: rep["case"][k] for k in rep["case"] if k != "rhs"})
-    return False
+    """re-run the recorded problem on the real code: solve, feed back, compare"""
+    import logging
+    import pde
+    from numpy import array  # noqa: F401  (used by eval of the recorded specification)
+
+    logging.getLogger("pde").setLevel(logging.CRITICAL)
+    c = rep["case"]
+    grid = c02.make_grid(c["grid"])
+    spec = eval(c["spec"], {"array": np.array, "nan": float("nan"), "inf": float("inf")})
+    if "rhs" not in c:
+        # Laplace equation leg: the solution must be harmonic
+        try:
+            sol = pde.solve_laplace_equation(grid, spec)
+        except RuntimeError as e:
+            print("solver raised:", e)
+            return True
+        res = float(np.abs(sol.laplace(bc=spec).data).max())
+        print("max |laplace(solution)| =", res)
+        return res <= 1e-4 * (1 + 0.1 * float(np.abs(sol.data).max()) + 10.0)
+    rhs = pde.ScalarField(grid, np.array(c["rhs"]).reshape(grid.shape))
+    try:
+        sol = pde.solve_poisson_equation(rhs, spec)
+    except RuntimeError as e:
+        print("solver raised:", e)
+        return True
+    res = float(np.abs(sol.laplace(bc=spec).data - rhs.data).max())
+    print("max |laplace(solution) - rhs| =", res)
+    return res <= 1e-4 * (1 + float(np.abs(rhs.data).max()) + 0.1 * float(np.abs(sol.data).max()))
